@@ -89,6 +89,6 @@ pub fn def() -> PropertyDef {
         level: "fault_enumeration",
         rule: "for every object kind of C14 (29 kinds, N=2..8 so encodings are tens to a few thousand bytes, residues of 1..8 bytes): write side - 1..5 faulty writers per object, each defined by a cyclic list of per-call acceptance limits 1..8 bytes, an optional hard failure (an error, or Ok(0) like a full fixed-size buffer) after k bytes and optional Interrupted errors; the call must return Err, or Ok(n) with n = length and the sink byte-identical to the reference encoding; read side - EVERY truncation offset 0..len-1 of the reference encoding (exhaustive for encodings up to 4 KiB, all early field boundaries plus sampled offsets above) must yield Err, never Ok and never a panic. non-trivial: every case with a non-empty encoding (each evaluates all its offsets); distinct = distinct serialized cases.",
         assumptions: vec!["only the fault classes the statement names: short writes, write failures, Interrupted, early end of stream (not arbitrary corruption)", "writers obey the std::io::Write contract (never Ok(0) for a non-empty buffer)"],
-        subs: vec![Sub::prop("faulty_streams", 30_000, 400_000, 0.5, fault_case, oracle)],
+        subs: vec![Sub::prop("faulty_streams", 150_000, 1_000_000, 0.5, fault_case, oracle)],
     }
 }
